@@ -45,6 +45,7 @@ namespace bxdecay0 {
 
   void Hf176low(i_random & prng_, event & event_, const int levelkev_)
   {
+    BXDECAY0_VERIF_SCOPE("scheme:Hf176low", levelkev_);
     // Subroutine describes the deexcitation process in Hf176 nucleus
     // after 2b-decay of Yb176 to ground and excited 0+ and 2+ levels
     // of Hf176 (NNDC site on 09.11.2018, NDS 107(2006)791).
